@@ -11,14 +11,15 @@ import (
 // C03 — write-ahead log recovers exactly the durable prefix.
 //
 // Decided (all in package consensus, wal.go + the three replay loops):
-//   frame-agreement  writer and reader use the same record layout and checksum
-//   valid-offset     validOffset advances only after the CRC matched, by header+payload
-//   torn-not-eof     an error from a read *inside* a record is never surfaced as io.EOF
-//   sync-order       sync = Flush then File.Sync, both checked, before the unsynced mark is cleared
-//   shift-order      sync -> Close -> OpenFile(tail+1) -> tailIdx++
-//   append-only      every OpenFile of a segment uses O_CREATE|O_WRONLY|O_APPEND
-//   repair-targets   Truncate hits the segment holding the valid end; every Remove is indexed by the loop variable
-//   consumers-repair every ReadBytes loop repairs on corrupted/torn and never breaks out silently
+//
+//	frame-agreement  writer and reader use the same record layout and checksum
+//	valid-offset     validOffset advances only after the CRC matched, by header+payload
+//	torn-not-eof     an error from a read *inside* a record is never surfaced as io.EOF
+//	sync-order       sync = Flush then File.Sync, both checked, before the unsynced mark is cleared
+//	shift-order      sync -> Close -> OpenFile(tail+1) -> tailIdx++
+//	append-only      every OpenFile of a segment uses O_CREATE|O_WRONLY|O_APPEND
+//	repair-targets   Truncate hits the segment holding the valid end; every Remove is indexed by the loop variable
+//	consumers-repair every ReadBytes loop repairs on corrupted/torn and never breaks out silently
 func init() {
 	register(&Prop{
 		ID:             "C03",
